@@ -50,7 +50,11 @@ class int_(int, metaclass=_Meta):
             return SymInt(num_term(x)[0])
         if _b.isinstance(x, SymReal):
             return mk_num(trunc_real(x.t))
+        if hasattr(x, "__sym_int__"):
+            return x.__sym_int__()
         return int(x, *a)
+
+    from_bytes = int.from_bytes
 
 
 class float_(float, metaclass=_Meta):
